@@ -76,11 +76,59 @@ var c15variants = []variant{
 	{"Env(map)+AllowUndefined", func(src string, e *Env) (interface{}, error, bool) {
 		return compileRun(src, e.AsMap(), expr.Env(e.AsMap()), expr.AllowUndefinedVariables(), expr.Optimize(false))
 	}},
+	// the same members as *unnamed* struct types with the fields in other orders (reflect.StructOf): two distinct
+	// struct types that agree on package path, (empty) name and field names must not be confused with each other
+	{"Eval(struct, fields rotated by 1)", func(src string, e *Env) (interface{}, error, bool) {
+		v, err := expr.Eval(src, permutedStruct(e, 1, false))
+		return v, err, true
+	}},
+	{"Eval(*struct, fields rotated by 7)", func(src string, e *Env) (interface{}, error, bool) {
+		v, err := expr.Eval(src, permutedStruct(e, 7, true))
+		return v, err, true
+	}},
+	{"Env(struct, fields reversed)", func(src string, e *Env) (interface{}, error, bool) {
+		pe := permutedStruct(e, -1, false)
+		return compileRun(src, pe, expr.Env(pe), expr.Optimize(false))
+	}},
+}
+
+// permutedStruct copies the exported members of e into a value of an unnamed struct type whose fields are the
+// same, rotated by rot places (rot < 0: reversed).
+func permutedStruct(e *Env, rot int, ptr bool) interface{} {
+	rv := reflect.ValueOf(e).Elem()
+	rt := rv.Type()
+	var fs []reflect.StructField
+	var idx []int
+	for i := 0; i < rt.NumField(); i++ {
+		if f := rt.Field(i); f.PkgPath == "" {
+			fs = append(fs, reflect.StructField{Name: f.Name, Type: f.Type})
+			idx = append(idx, i)
+		}
+	}
+	n := len(fs)
+	if rot < 0 {
+		for i, j := 0, n-1; i < j; i, j = i+1, j-1 {
+			fs[i], fs[j] = fs[j], fs[i]
+			idx[i], idx[j] = idx[j], idx[i]
+		}
+	} else {
+		rot %= n
+		fs = append(append([]reflect.StructField{}, fs[rot:]...), fs[:rot]...)
+		idx = append(append([]int{}, idx[rot:]...), idx[:rot]...)
+	}
+	v := reflect.New(reflect.StructOf(fs)).Elem()
+	for j, i := range idx {
+		v.Field(j).Set(rv.Field(i))
+	}
+	if ptr {
+		return v.Addr().Interface()
+	}
+	return v.Interface()
 }
 
 func runC15(c *Ctx) {
 	r := c.R
-	r.Rule = "generated expressions (well-typed stream and a mostly ill-typed stream) x environments x {Eval on *struct, Eval on map, Compile without Env (struct and map values), Env(*struct), Env(struct), Env(map), AllowUndefinedVariables on/off}; all variants that succeed must return equal values; Optimize(false) so that only type information differs; non-trivial = at least two variants succeed"
+	r.Rule = "generated expressions (well-typed stream and a mostly ill-typed stream) x environments x {Eval on *struct, Eval on map, Compile without Env (struct and map values), Env(*struct), Env(struct), Env(map), AllowUndefinedVariables on/off, unnamed struct types with permuted fields}; all variants that succeed must return equal values; Optimize(false) so that only type information differs; non-trivial = at least two variants succeed"
 	n := 2500
 	if c.Thorough() {
 		n = 40000
